@@ -246,6 +246,9 @@ def _run_replay_chunk(cases, workdir, name, env, timeout_ms, binary="replay", re
             for c in cases]
 
 
+MAX_CASES_PER_PROCESS = 1500   # an engine process leaks ~2 memory mappings per compiled unit and dies at vm.max_map_count
+
+
 def replay(cases, workdir, env_extra=None, jobs=12, timeout_ms=10000, name="replay", binary="replay", isolate=False):
     """Replay cases on the real engine, in `jobs` parallel subprocesses."""
     from concurrent.futures import ThreadPoolExecutor
@@ -269,7 +272,10 @@ def replay(cases, workdir, env_extra=None, jobs=12, timeout_ms=10000, name="repl
         chunks = [[c] for c in cases]
     else:
         jobs = max(1, min(jobs, (len(cases) + 19) // 20))
-        chunks = [cases[i::jobs] for i in range(jobs)]
+        chunks = []
+        for i in range(jobs):
+            part = cases[i::jobs]
+            chunks += [part[k:k + MAX_CASES_PER_PROCESS] for k in range(0, len(part), MAX_CASES_PER_PROCESS)]
     t0 = time.time()
     with ThreadPoolExecutor(max_workers=jobs) as ex:
         futs = [ex.submit(_run_replay_chunk, ch, workdir, f"{name}.{i}", env, timeout_ms, binary)
